@@ -1,4 +1,4 @@
-import PewProofs.ThermoParams
+import PewProofs.ThermoText
 
 /-! # C03 — property theorems (statements only depend on `PewModel.Thermo` and the hypothesis
 structures `RowsOK` / `ColsOK` of `PewProofs`) -/
@@ -6,38 +6,62 @@ namespace Pew.Thermo
 
 variable {α : Type}
 
-/-- **Samples in rows.** For every acquisition with n ≥ 1 samples, m ≥ 1 scans, k ≥ 1 distinct labels
-of at most 32 characters and any exported channels, the requested one (`ci`) among them and
-recognisable in the 7-character channel row, the rows reader returns for every element, in order of
-first appearance, pixel [sample, scan] = the exported value of the requested channel.
-(`hscans`: `int(str(s)[:16]) = s`, the external conversion of scan numbers.) -/
+/-- **Samples in rows.** For every acquisition with n ≥ 0 samples (no sample row at all gives the
+image without samples), m ≥ 1 scans, k ≥ 1 distinct labels of at most 32 characters and any exported
+channels, the requested one (`ci`) among them and recognisable in the 7-character channel row, the rows
+reader returns for every element, in order of first appearance, pixel [sample, scan] = the exported
+value of the requested channel.
+(`hscans`: `int(str(s)[:16]) = s`, the external conversion of scan numbers; `hsampleHash`,
+`hvalueHash`: `np.genfromtxt` cuts a sample row at a `#`.) -/
 theorem readRows_render (x : Ext α) (sh : Nat → String) (comma : Bool) (a : Acq) (ci : Nat)
-    (hn : 0 < a.samples.length) (hm : 0 < a.nscans) (hk : 0 < a.elements.length)
+    (hm : 0 < a.nscans) (hk : 0 < a.elements.length)
     (hdistinct : a.elements.Nodup) (hlabels : ∀ e ∈ a.elements, trunc 32 e = e)
     (hci : ci < a.channels.length)
     (hchans : ∀ c, c < a.channels.length → (trunc 7 (a.chan c) == a.chan ci) = (c == ci))
-    (hscans : ∀ s, s < a.nscans → x.readNat (trunc 16 (sh s)) = some s) :
+    (hscans : ∀ s, s < a.nscans → x.readInt (trunc 16 (sh s)) = some (s : Int))
+    (hsampleHash : ∀ s ∈ a.samples, hasHash s = false)
+    (hvalueHash : ∀ i, i < a.samples.length → ∀ s, s < a.nscans → ∀ e, e < a.elements.length → ∀ c, c < a.channels.length →
+      hasHash (a.value i s e c) = false) :
     readRows x comma (a.chan ci) (renderRows sh a) = some (specImg x comma a ci) :=
-  readRows_render_aux x sh comma a ci ⟨hn, hm, hk, hdistinct, hlabels, hci, hchans, hscans⟩
+  readRows_render_aux x sh comma a ci ⟨hm, hk, hdistinct, hlabels, hci, hchans, hscans, hsampleHash, hvalueHash⟩
 
-/-- **Samples in columns.** The same for the columns reader, for m ≥ 2 scans, non-empty sample
-names, labels that the decimal-comma replacement leaves alone, and a requested channel whose name
-occurs as a substring of a `MainRuns` line only in that line's channel field. -/
+/-- **Samples in columns.** The same for the columns reader, for n ≥ 1 samples with non-empty names,
+at least two lines of the requested channel (`2 ≤ k · m`: two scans as in the property's quantifier, or
+two elements), labels that the decimal-comma replacement leaves alone, and a requested channel whose
+name occurs as a substring of a `MainRuns` line only in that line's channel field; no `#` in the sample
+names nor in the lines of the requested channel. -/
 theorem readCols_render (x : Ext α) (sh : Nat → String) (comma : Bool) (a : Acq) (ci : Nat)
-    (hn : 0 < a.samples.length) (hsamples : ∀ s ∈ a.samples, s ≠ "") (hm : 2 ≤ a.nscans)
-    (hk : 0 < a.elements.length) (hdistinct : a.elements.Nodup)
+    (hn : 0 < a.samples.length) (hsamples : ∀ s ∈ a.samples, s ≠ "") (hm : 0 < a.nscans)
+    (hk : 0 < a.elements.length) (hlines : 2 ≤ a.elements.length * a.nscans) (hdistinct : a.elements.Nodup)
     (hlabels : ∀ e ∈ a.elements, trunc 32 (fixDec comma e) = e)
     (hci : ci < a.channels.length)
     (hself : ∀ c, c < a.channels.length → hasSub (a.chan ci) (a.chan c) = (c == ci))
-    (hmain : hasSub (a.chan ci) "MainRuns" = false) (hempty : hasSub (a.chan ci) "" = false)
+    (hmain : hasSub (a.chan ci) "MainRuns" = false) (heol : hasSub (a.chan ci) "\n" = false)
     (hscan : ∀ s, s < a.nscans → hasSub (a.chan ci) (sh s) = false)
     (hlabel : ∀ e ∈ a.elements, hasSub (a.chan ci) e = false)
     (hvalue : ∀ i, i < a.samples.length → ∀ s, s < a.nscans → ∀ e, e < a.elements.length → ∀ c, c < a.channels.length →
       hasSub (a.chan ci) (a.value i s e c) = false)
-    (hscans : ∀ s, s < a.nscans → x.readNat (fixDec comma (sh s)) = some s) :
+    (hscans : ∀ s, s < a.nscans → x.readInt (fixDec comma (sh s)) = some (s : Int))
+    (hsampleHash : ∀ s ∈ a.samples, hasHash s = false) (hscanHash : ∀ s, s < a.nscans → hasHash (sh s) = false)
+    (hlabelHash : ∀ e ∈ a.elements, hasHash e = false) (hchanHash : hasHash (a.chan ci) = false)
+    (hvalueHash : ∀ i, i < a.samples.length → ∀ s, s < a.nscans → ∀ e, e < a.elements.length → hasHash (a.value i s e ci) = false) :
     readCols x comma (a.chan ci) (renderCols sh a) = some (specImg x comma a ci) :=
   readCols_render_aux x sh comma a ci
-    ⟨hn, hsamples, hm, hk, hdistinct, hlabels, hci, hself, hmain, hempty, hscan, hlabel, hvalue, hscans⟩
+    ⟨hn, hsamples, hm, hk, hlines, hdistinct, hlabels, hci, hself, hmain, heol, hscan, hlabel, hvalue, hscans,
+     hsampleHash, hscanHash, hlabelHash, hchanHash, hvalueHash⟩
+
+/-- **The boundary of the columns reader**: an export with a single line of the requested channel
+(one scan of one element — below the 2 scans of the property's quantifier) is not imported, whatever
+its values: `np.genfromtxt` returns a 0-d record and the reader raises `IndexError`. -/
+theorem readCols_single_line (x : Ext α) (comma : Bool) (chan : String) (first hdr line : Row)
+    (hsel : (lineStarts line && lineHas chan line) = true) (hhdr : lineStarts hdr = false)
+    (hline : (gfSplit (line.map (fixDec comma))).isEmpty = false) :
+    readCols x comma chan [first, hdr, line] = none := by
+  unfold readCols
+  simp only [List.filter_cons, hhdr, Bool.false_and, Bool.false_eq_true, if_false, hsel, if_true, List.filter_nil]
+  simp only [gfLines, List.map_cons, List.map_nil, List.filter_cons, hline, Bool.not_false, if_true, List.filter_nil,
+    List.length_cons, List.length_nil, Nat.zero_add, BEq.rfl]
+  split <;> rfl
 
 /-- **The two layouts of one acquisition import to identical arrays** (`RowsOK` / `ColsOK` bundle
 exactly the hypotheses of the two theorems above). -/
@@ -46,17 +70,58 @@ theorem rows_eq_cols (x : Ext α) (sh : Nat → String) (comma : Bool) (a : Acq)
     readRows x comma (a.chan ci) (renderRows sh a) = readCols x comma (a.chan ci) (renderCols sh a) := by
   rw [readRows_render_aux x sh comma a ci hr, readCols_render_aux x sh comma a ci hc]
 
-/-- **Channel selection never crosses wires**: with both channels exported, asking for one returns
-that channel's values in both layouts (`specImg … ia` and `specImg … ic` are built from different
-tokens of the acquisition). -/
+/-- pixel [sample `i`, scan `s`] of element `e` of the specification image is the exported token of
+channel `c`, converted -/
+theorem specImg_pixel (x : Ext α) (comma : Bool) (a : Acq) (c e i s : Nat)
+    (he : e < a.elements.length) (hi : i < a.samples.length) (hs : s < a.nscans) :
+    (specImg x comma a c).pixel e i s = some (specPixel x comma a c e i s) := by
+  simp [specImg, Img.pixel, specPixel, he, hi, hs]
+
+/-- **Channel selection never crosses wires.** With both channels exported, asking for `Analog`
+(`use_analog`) returns, in both layouts, one image whose every pixel is the value exported in the
+**Analog** channel, and asking for `Counter` one image whose every pixel is the value exported in the
+**Counter** channel; wherever the two exported values convert to different numbers the two images
+differ at that pixel. -/
 theorem analog_vs_counter (x : Ext α) (sh : Nat → String) (comma : Bool) (a : Acq) (ia ic : Nat)
+    (hA : a.chan ia = "Analog") (hC : a.chan ic = "Counter")
     (hra : RowsOK x sh a ia) (hca : ColsOK x sh comma a ia) (hrc : RowsOK x sh a ic) (hcc : ColsOK x sh comma a ic) :
-    readRows x comma (a.chan ia) (renderRows sh a) = some (specImg x comma a ia) ∧
-    readCols x comma (a.chan ia) (renderCols sh a) = some (specImg x comma a ia) ∧
-    readRows x comma (a.chan ic) (renderRows sh a) = some (specImg x comma a ic) ∧
-    readCols x comma (a.chan ic) (renderCols sh a) = some (specImg x comma a ic) :=
-  ⟨readRows_render_aux x sh comma a ia hra, readCols_render_aux x sh comma a ia hca,
-   readRows_render_aux x sh comma a ic hrc, readCols_render_aux x sh comma a ic hcc⟩
+    ∃ imgA imgC : Img α,
+      readRows x comma "Analog" (renderRows sh a) = some imgA ∧ readCols x comma "Analog" (renderCols sh a) = some imgA ∧
+      readRows x comma "Counter" (renderRows sh a) = some imgC ∧ readCols x comma "Counter" (renderCols sh a) = some imgC ∧
+      (∀ e i s, e < a.elements.length → i < a.samples.length → s < a.nscans →
+        imgA.pixel e i s = some (x.parse (fixDec comma (a.value i s e ia))) ∧
+        imgC.pixel e i s = some (x.parse (fixDec comma (a.value i s e ic)))) ∧
+      (∀ e i s, e < a.elements.length → i < a.samples.length → s < a.nscans →
+        x.parse (fixDec comma (a.value i s e ia)) ≠ x.parse (fixDec comma (a.value i s e ic)) →
+        imgA.pixel e i s ≠ imgC.pixel e i s) := by
+  refine ⟨specImg x comma a ia, specImg x comma a ic, ?_, ?_, ?_, ?_, ?_, ?_⟩
+  · rw [← hA]; exact readRows_render_aux x sh comma a ia hra
+  · rw [← hA]; exact readCols_render_aux x sh comma a ia hca
+  · rw [← hC]; exact readRows_render_aux x sh comma a ic hrc
+  · rw [← hC]; exact readCols_render_aux x sh comma a ic hcc
+  · intro e i s he hi hs
+    exact ⟨specImg_pixel x comma a ia e i s he hi hs, specImg_pixel x comma a ic e i s he hi hs⟩
+  · intro e i s he hi hs hne hEq
+    rw [specImg_pixel x comma a ia e i s he hi hs, specImg_pixel x comma a ic e i s he hi hs] at hEq
+    exact hne (Option.some.inj hEq)
+
+/-- **The image of a channel is built from that channel's exported values alone**: two acquisitions
+with the same samples, scans, elements and channel names whose values agree in channel `ci` import to
+the same image in both layouts, whatever the other channels hold. -/
+theorem channel_values_only (x : Ext α) (sh : Nat → String) (comma : Bool) (a a' : Acq) (ci : Nat)
+    (hs : a'.samples = a.samples) (hm : a'.nscans = a.nscans) (he : a'.elements = a.elements) (hc : a'.channels = a.channels)
+    (hval : ∀ i s e, a'.value i s e ci = a.value i s e ci)
+    (hr : RowsOK x sh a ci) (hr' : RowsOK x sh a' ci) (hco : ColsOK x sh comma a ci) (hco' : ColsOK x sh comma a' ci) :
+    readRows x comma (a.chan ci) (renderRows sh a') = readRows x comma (a.chan ci) (renderRows sh a) ∧
+    readCols x comma (a.chan ci) (renderCols sh a') = readCols x comma (a.chan ci) (renderCols sh a) := by
+  have hchan : a'.chan ci = a.chan ci := by unfold Acq.chan; rw [hc]
+  have hspec : specImg x comma a' ci = specImg x comma a ci := by
+    unfold specImg
+    rw [he, hs, hm]
+    simp only [hval]
+  rw [← hchan, readRows_render_aux x sh comma a' ci hr', readCols_render_aux x sh comma a' ci hco', hchan,
+    readRows_render_aux x sh comma a ci hr, readCols_render_aux x sh comma a ci hco, hspec]
+  exact ⟨rfl, rfl⟩
 
 /-- **Scan time**: both `*_read_params` return the times of the first element and the mean
 interval of the exported Time channel over all samples and scans, rounded to 4 decimals. -/
@@ -66,10 +131,34 @@ theorem scantime_render (x : Ext V) (sh : Nat → String) (comma : Bool) (a : Ac
     readParams x false comma (renderCols sh a) = some (specParams x comma a ct) :=
   ⟨params_renderRows_aux x sh comma a ct htime hr, params_renderCols_aux x sh comma a ct htime hc⟩
 
+/-! ## lines that `np.genfromtxt` skips -/
+
+theorem gfSplit_blank (comma : Bool) : gfSplit [fixDec comma "\n"] = [] := by
+  cases comma <;> decide
+
+/-- **A trailing blank line changes nothing** in the rows layout: for every table with its four
+header rows, appending an empty line gives the same result (image or exception). -/
+theorem readRows_trailing_blank (x : Ext α) (comma : Bool) (chan : String) (t : Table) (h4 : 4 ≤ t.length) :
+    readRows x comma chan (t ++ [["\n"]]) = readRows x comma chan t := by
+  have hget : ∀ i, i < 4 → (t ++ [["\n"]]).getD i [""] = t.getD i [""] := by
+    intro i hi
+    simp only [List.getD, List.getElem?_append_left (show i < t.length by omega)]
+  have hbody : gfLines comma ((t ++ [["\n"]]).drop 4) = gfLines comma (t.drop 4) := by
+    rw [List.drop_append_of_le_length h4]
+    simp only [gfLines, List.map_append, List.map_cons, List.map_nil, List.filter_append, gfSplit_blank, List.filter_cons,
+      List.isEmpty_nil, Bool.not_true, Bool.false_eq_true, if_false, List.filter_nil, List.append_nil]
+  unfold readRows
+  simp only [hget 0 (by omega), hget 1 (by omega), hget 2 (by omega), hget 3 (by omega)]
+  split
+  · rfl
+  · unfold readRowsH
+    simp only [hbody]
+
 /-! ## sniffing -/
 
 theorem hasSub_mainruns_self : hasSub "MainRuns" "MainRuns" = true := by decide
 theorem hasSub_mainruns_empty : hasSub "MainRuns" "" = false := by decide
+theorem hasSub_mainruns_eol : hasSub "MainRuns" "\n" = false := by decide
 theorem hasSub_mainruns_ident : hasSub "MainRuns" "<Identifier>" = false := by decide
 
 /-- the rows layout is recognised (at least one exported cell) -/
@@ -77,7 +166,7 @@ theorem sniff_renderRows (sh : Nat → String) (a : Acq)
     (hm : 0 < a.nscans) (hk : 0 < a.elements.length) (hc : 0 < a.channels.length) :
     sniff (renderRows sh a) = .rows := by
   unfold sniff renderRows
-  have : lineHas "MainRuns" ("" :: "" :: (enumRows a.nscans a.elements.length a.channels.length).map (fun _ => "MainRuns") ++ [""]) = true := by
+  have : lineHas "MainRuns" ("" :: "" :: (enumRows a.nscans a.elements.length a.channels.length).map (fun _ => "MainRuns") ++ ["\n"]) = true := by
     simp only [lineHas, List.cons_append, List.any_cons, List.any_append, List.any_map, Bool.or_eq_true]
     right; right; left
     rw [List.any_eq_true]
@@ -91,9 +180,9 @@ theorem sniff_renderCols (sh : Nat → String) (a : Acq)
     (hs : ∀ s ∈ a.samples, hasSub "MainRuns" s = false) :
     sniff (renderCols sh a) = .columns := by
   unfold sniff renderCols
-  have h0 : lineHas "MainRuns" (["", "", "", ""] ++ a.samples ++ [""]) = false := by
+  have h0 : lineHas "MainRuns" (["", "", "", ""] ++ a.samples ++ ["\n"]) = false := by
     simp only [lineHas, List.cons_append, List.nil_append, List.any_cons, List.any_append, List.any_nil,
-      hasSub_mainruns_empty, Bool.false_or, Bool.or_false]
+      hasSub_mainruns_empty, hasSub_mainruns_eol, Bool.false_or, Bool.or_false]
     rw [List.any_eq_false]
     intro s hs'
     simp [hs s hs']
@@ -122,6 +211,47 @@ theorem sniff_short (t : Table) (hlen : t.length < 3) (h0 : lineHas "MainRuns" (
   have : t.getD 2 [] = [] := by
     simp [List.getD, List.getElem?_eq_none (show t.length ≤ 2 by omega)]
   rw [this]; rfl
+
+/-- **"'unknown' for anything else"**: on every text whose first and third line do not mention
+`MainRuns` (`otherFile`, the domain on which the check demands the constant) the sniffer answers the
+specification's constant -/
+theorem sniff_other (t : Table) (h : otherFile t = true) : sniff t = specSniffOther := by
+  unfold otherFile at h
+  simp only [Bool.and_eq_true, Bool.not_eq_true'] at h
+  exact sniff_unknown t h.1 h.2
+
+/-- … and no export of either layout is such a text: the two cases of the sniffing clause do not overlap -/
+theorem render_not_other (sh : Nat → String) (a : Acq)
+    (hm : 0 < a.nscans) (hk : 0 < a.elements.length) (hc : 0 < a.channels.length) :
+    otherFile (renderRows sh a) = false ∧ otherFile (renderCols sh a) = false := by
+  constructor
+  · have := sniff_renderRows sh a hm hk hc
+    unfold sniff at this
+    unfold otherFile
+    cases h0 : lineHas "MainRuns" ((renderRows sh a).getD 0 []) with
+    | true => rfl
+    | false =>
+      rw [h0] at this
+      simp only [Bool.false_eq_true, if_false] at this
+      split at this <;> cases this
+  · unfold otherFile
+    cases h0 : lineHas "MainRuns" ((renderCols sh a).getD 0 []) with
+    | true => rfl
+    | false =>
+      cases h2 : lineHas "MainRuns" ((renderCols sh a).getD 2 []) with
+      | true => rfl
+      | false =>
+        exfalso
+        obtain ⟨y, t, hy⟩ : ∃ y t, enumCols a.nscans a.elements.length a.channels.length = y :: t := by
+          have : (0, 0, 0) ∈ enumCols a.nscans a.elements.length a.channels.length := mem_enumCols.mpr ⟨hm, hk, hc⟩
+          cases he : enumCols a.nscans a.elements.length a.channels.length with
+          | nil => rw [he] at this; simp at this
+          | cons y t => exact ⟨y, t, rfl⟩
+        unfold renderCols at h2
+        rw [hy] at h2
+        simp only [List.map_cons, List.getD_cons_succ, List.getD_cons_zero, colLine, lineHas, List.cons_append, List.any_cons,
+          hasSub_mainruns_self, Bool.true_or] at h2
+        cases h2
 
 /-! ## `load` -/
 
@@ -170,7 +300,7 @@ theorem load_renderRows (x : Ext V) (sh : Nat → String) (delim : Char) (a : Ac
           intro c hc i hi s hs e he
           rw [List.any_eq_false] at hany
           have hrow := hany (a.samples.getD i "" :: "<Identifier>" ::
-            (enumRows a.nscans a.elements.length a.channels.length).map (fun x => a.value i x.1 x.2.1 x.2.2) ++ [""]) (by
+            (enumRows a.nscans a.elements.length a.channels.length).map (fun x => a.value i x.1 x.2.1 x.2.2) ++ ["\n"]) (by
               unfold renderRows
               simp only [List.cons_append, List.nil_append, List.mem_cons, List.mem_map, List.mem_range]
               right; right; right; right
@@ -197,7 +327,7 @@ theorem load_renderCols (x : Ext V) (sh : Nat → String) (delim : Char) (a : Ac
     (hnodec : dec = false → ∀ r ∈ renderCols sh a, ∀ f ∈ r, hasSub "," f = false) :
     load x delim (renderCols sh a) ua = .ok (specImg x dec a ci) (some (specParams x dec a ct)) := by
   have h0 := hc false
-  have hsniff := sniff_renderCols sh a (by have := h0.nscans; omega) h0.nelements
+  have hsniff := sniff_renderCols sh a h0.nscans h0.nelements
     (Nat.lt_of_le_of_lt (Nat.zero_le _) h0.chanIdx) hs
   have hrd := readCols_render_aux x sh (detectComma delim (renderCols sh a)) a ci (hc _)
   have hpar := params_renderCols_aux x sh (detectComma delim (renderCols sh a)) a ct htime (hct _)
@@ -238,6 +368,83 @@ theorem load_renderCols (x : Ext V) (sh : Nat → String) (delim : Char) (a : Ac
   simp only [hsniff]
   rw [← hchan, hrd, hpar, hkey.1, hkey.2]
 
+/-! ## from the table to the text of the file -/
+
+/-- **The text layer**: for a table whose first line starts with an empty field (both layouts do) and
+whose fields do not contain the delimiter, splitting the lines of its text — at the delimiter passed to
+a reader, or at the first character of the file when none is passed — gives the table back. -/
+theorem tableOf_renderText (d : Char) (g : String) (r : Row) (rest : Table)
+    (hne : ∀ q ∈ ("" :: g :: r) :: rest, q ≠ []) (h : ∀ q ∈ ("" :: g :: r) :: rest, ∀ f ∈ q, d ∉ f.toList) :
+    tableOf (some d) (renderText d (("" :: g :: r) :: rest)) = some (("" :: g :: r) :: rest) ∧
+    tableOf none (renderText d (("" :: g :: r) :: rest)) = some (("" :: g :: r) :: rest) := by
+  obtain ⟨tl, htl⟩ := head_renderText d g r rest
+  constructor
+  · simp only [tableOf]
+    rw [splitLines_renderText d _ hne h]
+  · simp only [tableOf, htl]
+    rw [splitLines_renderText d _ hne h]
+
+/-- `load` on the text of a table is `load` on the table -/
+theorem loadText_renderText (x : Ext V) (d : Char) (g : String) (r : Row) (rest : Table) (ua : Bool)
+    (hne : ∀ q ∈ ("" :: g :: r) :: rest, q ≠ []) (h : ∀ q ∈ ("" :: g :: r) :: rest, ∀ f ∈ q, d ∉ f.toList) :
+    loadText x (renderText d (("" :: g :: r) :: rest)) ua = load x d (("" :: g :: r) :: rest) ua := by
+  obtain ⟨tl, htl⟩ := head_renderText d g r rest
+  simp only [loadText, htl]
+  rw [splitLines_renderText d _ hne h]
+
+theorem renderRows_rows_ne (sh : Nat → String) (a : Acq) : ∀ q ∈ renderRows sh a, q ≠ [] := by
+  intro q hq
+  unfold renderRows at hq
+  simp only [List.cons_append, List.nil_append, List.mem_cons, List.mem_map] at hq
+  rcases hq with hq | hq | hq | hq | ⟨i, _, hq⟩
+  · rw [hq]; simp
+  · rw [hq]; simp
+  · rw [hq]; simp
+  · rw [hq]; simp
+  · rw [← hq]; simp
+
+theorem renderCols_rows_ne (sh : Nat → String) (a : Acq) : ∀ q ∈ renderCols sh a, q ≠ [] := by
+  intro q hq
+  unfold renderCols at hq
+  simp only [List.cons_append, List.nil_append, List.mem_cons, List.mem_map] at hq
+  rcases hq with hq | hq | ⟨y, _, hq⟩
+  · rw [hq]; simp
+  · rw [hq]; simp
+  · rw [← hq]; simp [colLine]
+
+/-- **`load` on the text of a samples-in-rows export** (the file as Qtegra writes it, decoded): the
+requested channel exactly as exported and the scan time; hypotheses of `load_renderRows`, and no field
+contains the delimiter. -/
+theorem load_text_rows (x : Ext V) (sh : Nat → String) (delim : Char) (a : Acq) (ci ct : Nat) (ua dec : Bool)
+    (hchan : a.chan ci = (if ua then "Analog" else "Counter")) (htime : a.chan ct = "Time")
+    (hr : RowsOK x sh a ci) (hrt : RowsOK x sh a ct)
+    (hdec : dec = true → delim = ';')
+    (hnodec : dec = false → ∀ r ∈ renderRows sh a, ∀ f ∈ r, hasSub "," f = false)
+    (hfree : ∀ r ∈ renderRows sh a, ∀ f ∈ r, delim ∉ f.toList) :
+    loadText x (renderText delim (renderRows sh a)) ua = .ok (specImg x dec a ci) (some (specParams x dec a ct)) := by
+  have hform : ∃ g r rest, renderRows sh a = ("" :: g :: r) :: rest := ⟨_, _, _, rfl⟩
+  obtain ⟨g, r, rest, hf⟩ := hform
+  have hne := renderRows_rows_ne sh a
+  rw [hf] at hne hfree ⊢
+  rw [loadText_renderText x delim g r rest ua hne hfree, ← hf]
+  exact load_renderRows x sh delim a ci ct ua dec hchan htime hr hrt hdec hnodec
+
+/-- **`load` on the text of a samples-in-columns export**, likewise. -/
+theorem load_text_cols (x : Ext V) (sh : Nat → String) (delim : Char) (a : Acq) (ci ct : Nat) (ua dec : Bool)
+    (hchan : a.chan ci = (if ua then "Analog" else "Counter")) (htime : a.chan ct = "Time")
+    (hc : ∀ b, ColsOK x sh b a ci) (hct : ∀ b, ColsOK x sh b a ct)
+    (hs : ∀ s ∈ a.samples, hasSub "MainRuns" s = false)
+    (hdec : dec = true → delim = ';')
+    (hnodec : dec = false → ∀ r ∈ renderCols sh a, ∀ f ∈ r, hasSub "," f = false)
+    (hfree : ∀ r ∈ renderCols sh a, ∀ f ∈ r, delim ∉ f.toList) :
+    loadText x (renderText delim (renderCols sh a)) ua = .ok (specImg x dec a ci) (some (specParams x dec a ct)) := by
+  have hform : ∃ g r rest, renderCols sh a = ("" :: g :: r) :: rest := ⟨_, _, _, rfl⟩
+  obtain ⟨g, r, rest, hf⟩ := hform
+  have hne := renderCols_rows_ne sh a
+  rw [hf] at hne hfree ⊢
+  rw [loadText_renderText x delim g r rest ua hne hfree, ← hf]
+  exact load_renderCols x sh delim a ci ct ua dec hchan htime hc hct hs hdec hnodec
+
 /-! ## non-vacuity: a 2-sample, 2-scan, 2-element acquisition with all five channels -/
 
 section examples
@@ -252,58 +459,111 @@ def exAcq : Acq :=
 def exShow (s : Nat) : String := String.ofList [dig s]
 
 def exExt : Ext String :=
-  { parse := fun s => s, readNat := fun t => if t = "0" then some 0 else if t = "1" then some 1 else none }
+  { parse := fun s => s, readInt := fun t => if t = "0" then some 0 else if t = "1" then some 1 else none }
 
 /-- the hypotheses of `readRows_render` and `readCols_render` hold for the Counter (4) and the
 Analog (3) channel of the example, so all theorems above apply to it -/
 example : RowsOK exExt exShow exAcq 4 :=
-  { nsamples := by decide, nscans := by decide, nelements := by decide, distinct := by decide,
-    labels := by decide, chanIdx := by decide, chans := by decide, scans := by decide }
+  { nscans := by decide, nelements := by decide, distinct := by decide,
+    labels := by decide, chanIdx := by decide, chans := by decide, scans := by decide,
+    sampleHash := by decide, valueHash := by decide }
 
 example : RowsOK exExt exShow exAcq 3 :=
-  { nsamples := by decide, nscans := by decide, nelements := by decide, distinct := by decide,
-    labels := by decide, chanIdx := by decide, chans := by decide, scans := by decide }
+  { nscans := by decide, nelements := by decide, distinct := by decide,
+    labels := by decide, chanIdx := by decide, chans := by decide, scans := by decide,
+    sampleHash := by decide, valueHash := by decide }
 
 example : ColsOK exExt exShow false exAcq 4 :=
-  { nsamples := by decide, sampleNames := by decide, nscans := by decide, nelements := by decide, distinct := by decide,
-    labels := by decide, chanIdx := by decide, chanSelf := by decide, chanMain := by decide, chanEmpty := by decide,
-    chanScan := by decide, chanLabel := by decide, chanValue := by decide, scans := by decide }
+  { nsamples := by decide, sampleNames := by decide, nscans := by decide, nelements := by decide, lines := by decide, distinct := by decide,
+    labels := by decide, chanIdx := by decide, chanSelf := by decide, chanMain := by decide, chanEol := by decide,
+    chanScan := by decide, chanLabel := by decide, chanValue := by decide, scans := by decide,
+    sampleHash := by decide, scanHash := by decide, labelHash := by decide, chanHash := by decide, valueHash := by decide }
 
 example : ColsOK exExt exShow true exAcq 3 :=
-  { nsamples := by decide, sampleNames := by decide, nscans := by decide, nelements := by decide, distinct := by decide,
-    labels := by decide, chanIdx := by decide, chanSelf := by decide, chanMain := by decide, chanEmpty := by decide,
-    chanScan := by decide, chanLabel := by decide, chanValue := by decide, scans := by decide }
+  { nsamples := by decide, sampleNames := by decide, nscans := by decide, nelements := by decide, lines := by decide, distinct := by decide,
+    labels := by decide, chanIdx := by decide, chanSelf := by decide, chanMain := by decide, chanEol := by decide,
+    chanScan := by decide, chanLabel := by decide, chanValue := by decide, scans := by decide,
+    sampleHash := by decide, scanHash := by decide, labelHash := by decide, chanHash := by decide, valueHash := by decide }
 
-/-- and the two channels really are different data -/
+/-- and the two channels really are different data: `analog_vs_counter` applies with `ia = 3`, `ic = 4`,
+and at every pixel the Analog value differs from the Counter value (so the two images differ there) -/
 example : specImg exExt false exAcq 4 ≠ specImg exExt false exAcq 3 := by decide
+example : ∀ e, e < 2 → ∀ i, i < 2 → ∀ s, s < 2 →
+    exExt.parse (fixDec false (exAcq.value i s e 3)) ≠ exExt.parse (fixDec false (exAcq.value i s e 4)) := by decide
+example : (specImg exExt false exAcq 3).pixel 1 0 1 = some "0.113" ∧ (specImg exExt false exAcq 4).pixel 1 0 1 = some "0.114" := by decide
+
+/-- `channel_values_only`: an acquisition that differs from the example in the Counter channel only -/
+def exAcq' : Acq := { exAcq with value := fun i s e c => if c = 4 then "9" else exAcq.value i s e c }
+example : ∀ i s e, exAcq'.value i s e 3 = exAcq.value i s e 3 := by intro i s e; rfl
+example : RowsOK exExt exShow exAcq' 3 :=
+  { nscans := by decide, nelements := by decide, distinct := by decide,
+    labels := by decide, chanIdx := by decide, chans := by decide, scans := by decide,
+    sampleHash := by decide, valueHash := by decide }
+example : ColsOK exExt exShow false exAcq' 3 :=
+  { nsamples := by decide, sampleNames := by decide, nscans := by decide, nelements := by decide, lines := by decide, distinct := by decide,
+    labels := by decide, chanIdx := by decide, chanSelf := by decide, chanMain := by decide, chanEol := by decide,
+    chanScan := by decide, chanLabel := by decide, chanValue := by decide, scans := by decide,
+    sampleHash := by decide, scanHash := by decide, labelHash := by decide, chanHash := by decide, valueHash := by decide }
+
+/-- `readRows_render` with no sample at all: the image without samples -/
+def exAcq0 : Acq := { exAcq with samples := [] }
+example : RowsOK exExt exShow exAcq0 4 :=
+  { nscans := by decide, nelements := by decide, distinct := by decide,
+    labels := by decide, chanIdx := by decide, chans := by decide, scans := by decide,
+    sampleHash := by decide, valueHash := by decide }
+example : readRows exExt false "Counter" (renderRows exShow exAcq0) = some { names := ["31P", "56Fe | 56Fe.16O"], planes := [[], []] } := by
+  decide
+
+/-- `readCols_single_line`: one scan of one element -/
+example : (lineStarts ["MainRuns", "0", "31P", "Counter", "1.0", "\n"] && lineHas "Counter" ["MainRuns", "0", "31P", "Counter", "1.0", "\n"]) = true ∧
+    lineStarts ["", "", "", "", "<Identifier>", "\n"] = false ∧
+    (gfSplit (["MainRuns", "0", "31P", "Counter", "1.0", "\n"].map (fixDec false))).isEmpty = false := by decide
+
+/-- `readRows_trailing_blank`: the example export is a table of six lines -/
+example : 4 ≤ (renderRows exShow exAcq).length := by decide
 
 def exExtV : Ext V :=
-  { parse := fun _ => none, readNat := fun t => if t = "0" then some 0 else if t = "1" then some 1 else none }
+  { parse := fun _ => none, readInt := fun t => if t = "0" then some 0 else if t = "1" then some 1 else none }
 
 /-- the hypotheses of `scantime_render`, `load_renderRows` and `load_renderCols` hold for the example
 (Time is channel 2, Counter 4, Analog 3; the example file has no comma outside the delimiters) -/
 example : RowsOK exExtV exShow exAcq 2 :=
-  { nsamples := by decide, nscans := by decide, nelements := by decide, distinct := by decide,
-    labels := by decide, chanIdx := by decide, chans := by decide, scans := by decide }
+  { nscans := by decide, nelements := by decide, distinct := by decide,
+    labels := by decide, chanIdx := by decide, chans := by decide, scans := by decide,
+    sampleHash := by decide, valueHash := by decide }
 
 example : ∀ b, ColsOK exExtV exShow b exAcq 2 := by
   intro b
   cases b <;> exact
-    { nsamples := by decide, sampleNames := by decide, nscans := by decide, nelements := by decide, distinct := by decide,
-      labels := by decide, chanIdx := by decide, chanSelf := by decide, chanMain := by decide, chanEmpty := by decide,
-      chanScan := by decide, chanLabel := by decide, chanValue := by decide, scans := by decide }
+    { nsamples := by decide, sampleNames := by decide, nscans := by decide, nelements := by decide, lines := by decide, distinct := by decide,
+      labels := by decide, chanIdx := by decide, chanSelf := by decide, chanMain := by decide, chanEol := by decide,
+      chanScan := by decide, chanLabel := by decide, chanValue := by decide, scans := by decide,
+      sampleHash := by decide, scanHash := by decide, labelHash := by decide, chanHash := by decide, valueHash := by decide }
 
 example : ∀ b, ColsOK exExtV exShow b exAcq 4 := by
   intro b
   cases b <;> exact
-    { nsamples := by decide, sampleNames := by decide, nscans := by decide, nelements := by decide, distinct := by decide,
-      labels := by decide, chanIdx := by decide, chanSelf := by decide, chanMain := by decide, chanEmpty := by decide,
-      chanScan := by decide, chanLabel := by decide, chanValue := by decide, scans := by decide }
+    { nsamples := by decide, sampleNames := by decide, nscans := by decide, nelements := by decide, lines := by decide, distinct := by decide,
+      labels := by decide, chanIdx := by decide, chanSelf := by decide, chanMain := by decide, chanEol := by decide,
+      chanScan := by decide, chanLabel := by decide, chanValue := by decide, scans := by decide,
+      sampleHash := by decide, scanHash := by decide, labelHash := by decide, chanHash := by decide, valueHash := by decide }
 
 example : exAcq.chan 2 = "Time" ∧ exAcq.chan 4 = "Counter" ∧ exAcq.chan 3 = "Analog" := by decide
 example : ∀ r ∈ renderCols exShow exAcq, ∀ f ∈ r, hasSub "," f = false := by decide
 example : ∀ r ∈ renderRows exShow exAcq, ∀ f ∈ r, hasSub "," f = false := by decide
 example : ∀ s ∈ exAcq.samples, hasSub "MainRuns" s = false := by decide
+
+/-- `load_text_rows` / `load_text_cols` / `tableOf_renderText`: no field of the example contains `;` -/
+example : ∀ r ∈ renderRows exShow exAcq, ∀ f ∈ r, ';' ∉ f.toList := by decide
+example : ∀ r ∈ renderCols exShow exAcq, ∀ f ∈ r, ';' ∉ f.toList := by decide
+example : (renderText ';' (renderCols exShow exAcq)).take 3 =
+    [";;;;Sample 1;2;\n", ";;;;<Identifier>;<Identifier>;\n", "MainRuns;0;31P;X [u];0.000;1.000;\n"] := by decide
+
+/-- `render_not_other` applies to the example -/
+example : 0 < exAcq.nscans ∧ 0 < exAcq.elements.length ∧ 0 < exAcq.channels.length := by decide
+
+/-- `sniff_other`: a text that is no export -/
+example : otherFile [["A", "B\n"], ["MainRuns", "0", "31P", "Counter", "1.0", "\n"]] = true := by decide
 
 end examples
 
